@@ -107,3 +107,58 @@ def run_declvalues(ctx):
         else:
             res.bad(key + "|types", "DestructTuple::create_instruction registers none of the names it declares", cb.where())
     return res
+
+
+# ---------------------------------------------------------------- R-FNLOCAL
+def run_fnlocal(ctx):
+    res = RuleResult("R-FNLOCAL", "the scope entry of a function literal records the type of the function's RESULT (its declared return "
+                                  "type), not the type of the function")
+    lib = ctx.facts.lib
+    from ..model import aggregates, op_local
+    from .export import single_def
+    b = None
+    for x in lib.bodies.values():
+        if x.name == "from" and "AnonymousFunction" in x.id and "LocalVariable" in x.id:
+            b = x
+    key = "fnlocal:AnonymousFunction"
+    if not res.anchor(b is not None, "impl From<&AnonymousFunction> for LocalVariable"):
+        return res
+    aggs = [s for _, s in aggregates(b, "instruction::local_variable::LocalVariable", "Function")]
+    if not res.anchor(len(aggs) == 1, "LocalVariable::Function built in From<&AnonymousFunction>"):
+        return res
+    o = aggs[0]["rv"]["ops"][1]
+    # trace the second component: a clone / copy of the field `return_type`, or the result of a call
+    cur = o
+    verdict = None
+    for _ in range(8):
+        l = op_local(cur)
+        if l is None:
+            break
+        if any(e["k"] == "field" and e.get("name") == "return_type" for e in cur.get("p", [])):
+            verdict = "field"
+            break
+        d = single_def(b, l)
+        if d is None:
+            break
+        if d[1] == "call":
+            callee = d[2]["func"].get("fn", {}).get("resolved") or d[2]["func"].get("fn", {}).get("path", "")
+            if callee.rsplit("::", 1)[-1] in ("clone", "to_owned", "as_ref", "deref", "borrow") and d[2]["args"]:
+                cur = d[2]["args"][0]
+                continue
+            verdict = "call:" + callee
+            break
+        rv = d[2]["rv"]
+        if rv["k"] in ("use", "cast"):
+            cur = rv["o"]
+        elif rv["k"] in ("ref", "copyderef"):
+            cur = {"k": "copy", "l": rv["place"]["l"], "p": rv["place"]["p"]}
+        else:
+            break
+    if verdict == "field":
+        res.ok(key, b.where(), "result type = the literal's declared return type")
+    elif verdict and verdict.startswith("call:") and verdict.endswith("ReturnType>::return_type"):
+        res.bad(key, "the scope entry of a function literal stores <AnonymousFunction as ReturnType>::return_type(), i.e. the type of the "
+                     "function itself, as the type of its result: `f := ((x: int) -> int {..}); y := f(1)` types y as a function", b.where())
+    else:
+        res.broken.append("From<&AnonymousFunction> for LocalVariable: cannot tell where the result type comes from (%s)" % verdict)
+    return res
